@@ -254,7 +254,28 @@ func ExtremesFamily() []Named {
 			{Index: 3, Def: &Def{Kind: "struct", Name: "NestC", Fields: []Field{f("p", Simple("Point")), f("id", Simple("guid"))}}},
 			{Index: 4, Def: &Def{Kind: "message", Name: "NestM", Fields: []Field{mf(1, "a", Simple("NestA")), mf(2, "more", ArrayOf(Simple("NestB")))}}}}},
 		&Def{Kind: "message", Name: "Bag", Fields: []Field{mf(1, "as", MapOf("string", ArrayOf(Simple("NestA")))), mf(2, "m", Simple("NestM"))}},
-		&Def{Kind: "struct", Name: "UsesMembers", Fields: []Field{f("a", Simple("NestA")), f("cs", ArrayOf(Simple("NestC"))), f("tail", Simple("int32"))}},
+		&Def{Kind: "struct", Name: "UsesMembers", Fields: []Field{f("a", Simple("NestA")), f("cs", ArrayOf(Simple("NestC"))), f("tail", Simple("int32"))}})
+	out = append(out, Named{"extremes/member-types-used-elsewhere", s})
+
+	// the same kind of nesting with NO top-level struct at all (bounds derived from the number of
+	// top-level structs are zero here)
+	s = &Schema{}
+	s.Defs = append(s.Defs,
+		&Def{Kind: "union", Name: "Shape0", Branches: []Branch{
+			{Index: 1, Def: &Def{Kind: "struct", Name: "Outer0", Fields: []Field{f("in", Simple("Inner0")), f("deep", Simple("Deep0"))}}},
+			{Index: 2, Def: &Def{Kind: "struct", Name: "Inner0", Fields: []Field{f("x", Simple("int32")), f("y", Simple("int64"))}}},
+			{Index: 3, Def: &Def{Kind: "struct", Name: "Deep0", Fields: []Field{f("i", Simple("Inner0")), f("g", Simple("guid"))}}}}},
+		&Def{Kind: "message", Name: "Holder0", Fields: []Field{mf(1, "outers", ArrayOf(Simple("Outer0"))), mf(2, "m", MapOf("string", ArrayOf(Simple("Deep0"))))}})
+	out = append(out, Named{"extremes/no-top-level-structs", s})
+
+	// inline MESSAGE members of a union used by name in other records (they have reader templates
+	// of their own), one of them with a deprecated field that a peer may still send
+	s = &Schema{}
+	s.Defs = append(s.Defs,
+		&Def{Kind: "struct", Name: "Pt", Fields: []Field{f("x", Simple("int32")), f("y", Simple("int32"))}},
+		&Def{Kind: "union", Name: "Nest2", Branches: []Branch{
+			{Index: 1, Def: &Def{Kind: "struct", Name: "NestS", Fields: []Field{f("p", Simple("Pt")), f("tag", Simple("byte"))}}},
+			{Index: 4, Def: &Def{Kind: "message", Name: "NestM", Fields: []Field{mf(1, "a", Simple("NestS")), mf(2, "more", ArrayOf(Simple("NestS")))}}}}},
 		&Def{Kind: "struct", Name: "UsesMsgMember", Fields: []Field{f("m", Simple("NestM")), f("tail", Simple("int32"))}},
 		&Def{Kind: "struct", Name: "MsgMemberArr", Fields: []Field{f("ms", ArrayOf(Simple("NestM"))), f("tail", Simple("uint16"))}},
 		&Def{Kind: "message", Name: "MsgMemberOpt", Fields: []Field{mf(1, "m", Simple("NestM")), mf(2, "tail", Simple("int32"))}},
@@ -265,7 +286,7 @@ func ExtremesFamily() []Named {
 			{Index: 2, Def: &Def{Kind: "struct", Name: "Dot", Fields: []Field{f("x", Simple("int32"))}}}}},
 		&Def{Kind: "struct", Name: "Caption", Fields: []Field{f("label", Simple("Label")), f("layer", Simple("uint16"))}},
 		&Def{Kind: "struct", Name: "Captions", Fields: []Field{f("labels", ArrayOf(Simple("Label"))), f("layer", Simple("uint16"))}})
-	out = append(out, Named{"extremes/member-types-used-elsewhere", s})
+	out = append(out, Named{"extremes/inline-message-members-by-name", s})
 
 	// structs whose wire size is not a function of their decoded content alone: they hold a
 	// message / union (skipped by the announced length), and are themselves held by value, in
